@@ -210,7 +210,7 @@ def cases(tier, seed):
     days = [mk_dt("zone", "Europe/Paris", 2024, 7, 1 + k, 12 * (k % 2), 0, 0, 0) for k in range(7)]
     for loc in LOCALES:
         for s in months + days + sub[: (8 if not big else 40)]:
-            safe = [t for t in LOCALIZABLE if not (loc == "nl" and t in NEEDS_WEEK_DATA)]
+            safe = list(LOCALIZABLE)     # every locale has week_data since the nl fix: commit; e/eo are rendered everywhere
             out.append({"stream": "locale-tokens", "fn": "format", "args": [loc, s, [["tok", t] if i % 2 == 0 else ["lit", SEP] for t in safe for i in (0, 1)][:-1]]})
         for t in NEEDS_WEEK_DATA:
             for s in days[:3]:
@@ -222,8 +222,6 @@ def cases(tier, seed):
         if not s["has"] and any(k == "tok" and v in ("X", "x") for k, v in parts):
             continue
         loc = rnd.choice(LOCALES) if rnd.random() < 0.4 else "en"
-        if loc == "nl" and any(k == "tok" and v in NEEDS_WEEK_DATA for k, v in parts):
-            loc = "en"
         out.append({"stream": "sequences", "fn": "format", "args": [loc, s, [list(p) for p in parts]]})
     # raw (unstructured) format strings: model vs implementation only
     alphabet = list("YMDdHhmsSAaZzXxQEeLTwWgGko[]\\ -:/.,") + ["\n", "é"]
